@@ -120,6 +120,11 @@ class Path:
             c = z3.BoolVal(c)
         if sv.is_true(c):
             return
+        if z3.is_app(c) and c.decl().kind() == z3.Z3_OP_AND:
+            # conjuncts are kept separately: the quantifier-free ones take part in path pruning
+            for ch in c.children():
+                self.assume(ch)
+            return
         if self.guards:
             c = sv.Implies(sv.And(*self.guards), c)
         h = c.get_id()
